@@ -174,3 +174,37 @@ End Passes.
 Print Assumptions rtnext_code_enoent.
 Print Assumptions rtnext_code_absent_pass.
 Print Assumptions landing_next_entry.
+
+(* ---------------------------------------------------------------- k absent arguments in a row are skipped: the first composition of
+   whole passes by induction (on the number of passes) *)
+Fixpoint absent_iter (k : nat) (rho : env) (idx sh : Z) : env :=
+  match k with
+  | O => rho
+  | S k' => absent_iter k' (absent_next rho idx sh) (idx + 1) (Z.shiftr sh 1)
+  end.
+
+Theorem rtnext_code_absent_run m tr F : forall (k : nat) rho idx sh,
+  rho "iterator->_arg_index" = idx -> rho "iterator->_bitmap_shifter" = sh ->
+  0 <= idx -> idx + Z.of_nat k < 2 ^ 31 - 1 -> 0 <= sh < 2 ^ 32 ->
+  (forall j, 0 <= j < Z.of_nat k -> Z.testbit sh j = false /\ (idx + j) mod 32 <> c_IEEE80211_RADIOTAP_EXT) ->
+  execg (13 + F + k) m rho tr body_ieee80211_radiotap_iterator_next =
+  execg (13 + F) m (absent_iter k rho idx sh) tr body_ieee80211_radiotap_iterator_next.
+Proof.
+  induction k as [ | k IH]; intros rho idx sh Hi Hs Ri Rk Rs Hbits.
+  - rewrite Nat.add_0_r. reflexivity.
+  - replace (13 + F + S k)%nat with (14 + (F + k))%nat by lia.
+    destruct (Hbits 0 ltac:(lia)) as (Hb0 & Hm0). rewrite Z.add_0_r in Hm0. rewrite Z.bit0_odd in Hb0.
+    rewrite (rtnext_code_absent_pass m rho tr idx sh (F + k) Hi Hs ltac:(lia) Rs Hm0 Hb0).
+    replace (13 + (F + k))%nat with (13 + F + k)%nat by lia.
+    cbn [absent_iter]. apply IH.
+    + reflexivity.
+    + reflexivity.
+    + lia.
+    + lia.
+    + rewrite Z.shiftr_div_pow2 by lia. change (2 ^ 1) with 2. nums. split; [apply Z.div_pos; lia | apply Z.div_lt_upper_bound; lia].
+    + intros j Hj. destruct (Hbits (j + 1) ltac:(lia)) as (Hb & Hm'). split.
+      * rewrite Z.shiftr_spec by lia. exact Hb.
+      * replace (idx + 1 + j) with (idx + (j + 1)) by lia. exact Hm'.
+Qed.
+
+Print Assumptions rtnext_code_absent_run.
